@@ -114,6 +114,50 @@ class NaturalSortKey(Contract):
                 yield ('%r vs %r' % (a, b), mk(a, b))
 
 
+def _int_may_fail(g):
+    """int(str): an arbitrary integer, or ValueError (the callee decides which pieces are numerals)"""
+    import z3
+    from pyvc.engine import Builtin, RaiseSig
+
+    def to_int(I_, a, k):
+        ok = z3.Bool('int_ok!%d' % next(I_.st.n))
+        if not I_.st.branch(ok):
+            raise RaiseSig('ValueError')
+        v = I_.st.fresh_int('intof')
+        g.setdefault('ints', {})[id(a[0])] = v
+        return v
+    return Builtin('int(str) (external: some integer, or ValueError)', to_int)
+
+
+@register
+class TraceSortKey(NaturalSortKey):
+    """simulation._trace_sort_key, the ordering of print_trace / print_vcd / the step_multiple report: same contract"""
+    module, qualname, props = 'pyrtl.simulation', '_trace_sort_key', ('C20',)
+
+    @property
+    def hooks(self):
+        return {'global:re': _re_module(self._g), 'global:int': _int_may_fail(self._g)}
+
+    def cases(self):
+        return ['pieces:1', 'pieces:3']
+
+    def concrete(self, tier='quick'):
+        names = ['a', 'a1', 'a01', 'a001', 'tmp4', 'tmp18', 'x1y2', 'x01y2', '7', '07', 'a_b', 'A', 'mem[3]', 'mem[03]']
+
+        def mk(a, b):
+            def thunk():
+                from pyrtl.simulation import _trace_sort_key as K
+                ka, kb = K(a), K(b)
+                if (ka == kb) != (a == b):
+                    return False, (ka, kb), 'different names, different keys'
+                lt, gt = ka < kb, kb < ka
+                return (lt != gt) or a == b, (lt, gt), 'total'
+            return thunk
+        for i, a in enumerate(names):
+            for b in names[i:]:
+                yield ('%r vs %r' % (a, b), mk(a, b))
+
+
 class _Sorted(Contract):
     """shared: `sorted` is recorded; the key function handed to it is run on a fresh item"""
     module, props = 'pyrtl.importexport', ('C20',)
